@@ -184,6 +184,16 @@ inductive Op where
   | adv (dt : Nat)
   deriving Repr
 
+/-- **A refused reconnect attempt.**  `_listen_invalidate_forever` handles a connection that breaks and a reconnect attempt
+that the server refuses (every `_RECONNECT_WAIT` seconds while the outage lasts) in the very same `except` branch:
+`self._listen_started.clear(); await self._local_cache.clear(); await asyncio.sleep(_RECONNECT_WAIT)`.  A refused attempt of
+a client whose connection is down is therefore the step `drop` taken again: it re-empties whatever the client's reads and
+writes put into the local copy since the connection broke, and leaves the client stopped.  The timeline of an outage is
+`drop c`, (commands of anybody, `refused c`)*, commands of anybody, `reconnect c`; what the commands of `c` inside it do to
+its local copy is what `step` says for a client with `started = false`: reads are answered by the server AND REMEMBERED
+locally, writes are remembered locally — only `reconnect` (and every `refused`) throws that away. -/
+abbrev Op.refused (c : Nat) : Op := .drop c
+
 def upd (cl : Nat → Client) (i : Nat) (c : Client) : Nat → Client := fun j => if j = i then c else cl j
 
 def now (st : St) : Nat := st.srv.ks.now
@@ -331,7 +341,9 @@ def step (st : St) : Op → St × ROut
     let c := st.cl i
     ({ st with cl := upd st.cl i { c.lclear with started := false, tracking := false, queue := [] } }, .none_)
   | .reconnect i =>
-    -- `_listen_invalidate`: new channel, `_listen_started.set(); await self._local_cache.clear()` (+ marks forgotten: D31)
+    -- `_listen_invalidate`: new channel, `_listen_started.set(); await self._local_cache.clear()` (+ marks forgotten: D31).
+    -- The clear at THIS point is what removes the values and "known absent" markers that reads made during the outage
+    -- (after the last refused attempt) wrote into the local copy; no invalidation will ever come for what changed meanwhile.
     let c := st.cl i
     ({ st with cl := upd st.cl i { c.lclear with started := true, tracking := true, queue := [], marks := fun _ => none } }, .none_)
   | .adv dt => (advance st dt, .none_)
